@@ -293,6 +293,52 @@ def _direct_variant_paths(ctx, t):
                 return True
             if root["t"] == "var" and _var_role(ctx, t, root)[0] in ("Ident",):
                 return True
+        # `#ident #( :: #variant )*` (optional variant segment)
+        if x["t"] == "rep" and i >= 1 and seq[i - 1]["t"] == "var":
+            b = x["body"]
+            if len(b) == 3 and b[0]["t"] == "p" and b[0]["c"] == ":" and b[1]["t"] == "p" and b[1]["c"] == ":" and b[2]["t"] == "var":
+                if _var_role(ctx, t, seq[i - 1])[0] in ("Ident", "unknown"):
+                    return True
+    return False
+
+
+def _template_ancestors(t):
+    """syntax-tree ancestors of a (non-nested) template's macro node inside its function"""
+    for m, ps in A.macros(t.fn.block):
+        if m is t.node:
+            return ps
+    return ()
+
+
+def _covered_by_outer_attrs(ctx, t, ts):
+    """An impl template without its own allow(deprecated) is still covered when its value is bound to a
+    local that another template of the same function splices exactly once directly after
+    `#[allow(deprecated)]`, and the impl template is not instantiated repeatedly (closure / loop body)."""
+    ps = _template_ancestors(t)
+    if any(A.kind(p) in ("Expr::Closure", "Expr::ForLoop", "Expr::While", "Expr::Loop") for p in ps):
+        return False
+    var = None
+    for p in reversed(ps):
+        if A.kind(p) == "Stmt::Local":
+            ids = A.pat_idents(p["pat"])
+            if len(ids) == 1:
+                var = ids[0]
+            break
+    if var is None:
+        return False
+    for o in ts:
+        if o is t or o.fn is not t.fn:
+            continue
+        seq = o.ir
+        for i, x in enumerate(seq):
+            if x["t"] == "var" and x["s"] == var:
+                attrs = []
+                k = i - 1
+                while k >= 1 and seq[k]["t"] == "grp" and seq[k]["d"] == "[" and seq[k - 1]["t"] == "p" and seq[k - 1]["c"] == "#":
+                    attrs.append(seq[k])
+                    k -= 2
+                if attr_allows(attrs, "deprecated"):
+                    return True
     return False
 
 
@@ -356,6 +402,8 @@ def rule_tpl_lint(ctx):
                 if not ok:
                     fa = fn_attrs_in_body(body)
                     ok = bool(fa) and all(attr_allows(a, "deprecated") for a in fa)
+                if not ok:
+                    ok = _covered_by_outer_attrs(ctx, t, ts)
                 if not ok:
                     ctx.report(
                         f"{t.key()}:no-allow-deprecated",
